@@ -192,6 +192,7 @@ class Monitor(object):
         self.active = False
         self.at_depth = {}        # caller depth -> (event idx, caller code, caller f_lasti)
         self.pending = None       # an armed fail-on-return fault
+        self.raise_n = {}         # depth of a pydl frame -> event count when an exception last arrived in it
         self.not_delivered = 0    # return-faults whose call raised by itself (nothing to add)
 
     def _tv(self):
@@ -219,7 +220,7 @@ class Monitor(object):
         if self.keep or hit:
             ev = dict(i=idx, caller=code.co_qualname, ckey=code_key(code),
                       line=caller_frame.f_lineno, callee=label, adm=adm, tv=self._tv(),
-                      kind=kind)
+                      kind=kind, d=d)
             if self.keep:
                 self.events.append(ev)
         if hit:
@@ -241,6 +242,12 @@ class Monitor(object):
             self.fired_all.append(ev)
             self.fault = self.queue.pop(0) if self.queue else None
             raise make_exception(f.exc_name)
+
+    def on_raise(self, code, off, exc):
+        # an exception is raised in, or propagates into, a frame (cannot be DISABLEd)
+        if self.active and code.co_filename.startswith(PYDL):
+            self.raise_n[_depth(sys._getframe(1))] = self.n
+        return None
 
     def on_instruction(self, code, off):
         p = self.pending
@@ -301,7 +308,15 @@ class Monitor(object):
                 # A mutation made while a failure is being handled is clean-up, never a
                 # perturbation (rule 1b of DESIGN.md 5.4).
                 exc = sys.exception()
-                hframe = exc.__traceback__.tb_frame if (exc is not None and exc.__traceback__ is not None) else None
+                # frames the in-flight exception has passed through or been thrown into; the
+                # frame that handles it is the OUTERMOST pydl frame of the current stack among
+                # them (a generator context manager resumed by throw() is in the chain too, but
+                # it was entered on behalf of the `with` statement's frame further out)
+                chain = set()
+                tb = exc.__traceback__ if exc is not None else None
+                while tb is not None:
+                    chain.add(tb.tb_frame)
+                    tb = tb.tb_next
                 hdepth = None
                 g = fr.f_back
                 while g is not None:
@@ -309,8 +324,8 @@ class Monitor(object):
                     dg = _depth(g)
                     if gc.co_filename.startswith(PYDL):
                         stack.append(code_key(gc))
-                    if g is hframe and gc.co_filename.startswith(PYDL):
-                        hdepth = dg
+                    if g in chain and gc.co_filename.startswith(PYDL):
+                        hdepth = dg          # keeps the outermost one: we walk outwards
                     ent = self.at_depth.get(dg)
                     # a CALL event sees f_lasti at the CALL instruction; while the callee
                     # runs the caller's f_lasti has moved over the inline cache entries
@@ -321,7 +336,8 @@ class Monitor(object):
                 if hdepth is not None:
                     cleanup = sorted(i for i, dg in anc if dg >= hdepth)
                 rec = dict(op=op, key=key, at=self.n, enclosing=sorted(i for i, _ in anc),
-                           stack=stack, cleanup=cleanup)
+                           stack=stack, cleanup=cleanup, hdepth=hdepth,
+                           arrived=self.raise_n.get(hdepth) if hdepth is not None else None)
                 if key in self.touched:
                     self.mutations.append(rec)
                 else:
@@ -356,8 +372,9 @@ def run_monitored(fn, touched, fault=None, keep_events=True):
     mon.register_callback(TOOL, EV.CALL, m.on_call)
     mon.register_callback(TOOL, EV.PY_START, m.on_start)
     mon.register_callback(TOOL, EV.INSTRUCTION, m.on_instruction)
+    mon.register_callback(TOOL, EV.RAISE, m.on_raise)
     mon.restart_events()
-    mon.set_events(TOOL, EV.CALL | EV.PY_START)
+    mon.set_events(TOOL, EV.CALL | EV.PY_START | EV.RAISE)
     outcome = ('returned', None)
     before = dict(os.environ)
     m.active = True
@@ -374,6 +391,7 @@ def run_monitored(fn, touched, fault=None, keep_events=True):
         mon.register_callback(TOOL, EV.CALL, None)
         mon.register_callback(TOOL, EV.PY_START, None)
         mon.register_callback(TOOL, EV.INSTRUCTION, None)
+        mon.register_callback(TOOL, EV.RAISE, None)
     return m, outcome, before, after
 
 
@@ -405,6 +423,14 @@ def admissibility(m):
         if mu.get('cleanup') is not None:
             c = mu['cleanup']
             cand = c[0] if c else mu['at']
+            # frames below the handling frame that were entered after the exception arrived
+            # in it (a generator context manager resumed by throw(), helpers of __exit__):
+            # on the exception path a `with` exit emits no CALL event, so these are not
+            # covered by an in-progress ancestor; everything they call is restoration
+            if mu.get('arrived') is not None and m.events:
+                deeper = [e['i'] for e in m.events[mu['arrived']:mu['at']] if e['d'] > mu['hdepth']]
+                if deeper:
+                    cand = min(cand, deeper[0])
             if first:
                 at_perturb = min(first.values())
                 ronly = [a for a in mu['enclosing'] if a >= at_perturb]
